@@ -114,17 +114,17 @@ func stateChain(c *vf.Ctx, i int, r *rand.Rand) {
 		st := m.stateAt(k)
 		want := st.Bytes()
 		if pv := vf.Try(func() { sm.SaveState(db, st) }); pv != nil {
-			c.Violation("savestate-panic", w("last_block_height", k), "SaveState(LastBlockHeight=%d) panicked: %v", k, pv)
+			viol(c, "savestate-panic", w("last_block_height", k), "SaveState(LastBlockHeight=%d) panicked: %v", k, pv)
 			return
 		}
 		var got sm.State
 		if pv := vf.Try(func() { got = sm.LoadState(db) }); pv != nil {
-			c.Violation("loadstate-panic", w("last_block_height", k), "LoadState panicked: %v", pv)
+			viol(c, "loadstate-panic", w("last_block_height", k), "LoadState panicked: %v", pv)
 			return
 		}
 		c.Case(fmt.Sprintf("%s/LoadState/%d", key, k), true)
 		if !bytes.Equal(got.Bytes(), want) {
-			c.Violation("loadstate-mismatch", w("last_block_height", k), "LoadState after SaveState(LastBlockHeight=%d) differs from the saved state", k)
+			viol(c, "loadstate-mismatch", w("last_block_height", k), "LoadState after SaveState(LastBlockHeight=%d) differs from the saved state", k)
 		}
 		c.Count("ss_states_saved", 1)
 	}
@@ -150,9 +150,9 @@ func stateChain(c *vf.Ctx, i int, r *rand.Rand) {
 		if !valPresent(h) {
 			c.Case(fmt.Sprintf("%s/LoadValidators-absent/%d", key, h), false)
 			if pv != nil {
-				c.Violation("validators-absent-panic", w("height", h), "LoadValidators(%d) (no record) panicked: %v", h, pv)
+				viol(c, "validators-absent-panic", w("height", h), "LoadValidators(%d) (no record) panicked: %v", h, pv)
 			} else if _, ok := err.(sm.NoValSetForHeightError); !ok {
-				c.Violation("validators-absent-loads", w("height", h), "LoadValidators(%d): no record was saved for this height, got err=%v set=%v", h, err, vs != nil)
+				viol(c, "validators-absent-loads", w("height", h), "LoadValidators(%d): no record was saved for this height, got err=%v set=%v", h, err, vs != nil)
 			}
 			c.Count("ss_absent_height_errors", 1)
 		} else {
@@ -185,13 +185,13 @@ func stateChain(c *vf.Ctx, i int, r *rand.Rand) {
 			}
 			switch {
 			case pv != nil:
-				c.Violation("validators-load-panic", ww(), "LoadValidators(%d) panicked: %v", h, pv)
+				viol(c, "validators-load-panic", ww(), "LoadValidators(%d) panicked: %v", h, pv)
 			case err != nil || vs == nil:
-				c.Violation("validators-load-error", ww(), "LoadValidators(%d): %v", h, err)
+				viol(c, "validators-load-error", ww(), "LoadValidators(%d): %v", h, err)
 			case members(vs) != members(want):
-				c.Violation("validators-mismatch", ww(), "LoadValidators(%d) = {%s}, in effect at that height: {%s}", h, members(vs), members(want))
+				viol(c, "validators-mismatch", ww(), "LoadValidators(%d) = {%s}, in effect at that height: {%s}", h, members(vs), members(want))
 			case !bytes.Equal(amino.MustMarshal(vs), amino.MustMarshal(want)):
-				c.Violation("validators-priority-mismatch", ww(), "LoadValidators(%d): members equal but proposer priorities / proposer differ: got {%s}, in effect {%s}", h, prios(vs), prios(want))
+				viol(c, "validators-priority-mismatch", ww(), "LoadValidators(%d): members equal but proposer priorities / proposer differ: got {%s}, in effect {%s}", h, prios(vs), prios(want))
 			}
 		}
 		// ---- consensus params
@@ -200,9 +200,9 @@ func stateChain(c *vf.Ctx, i int, r *rand.Rand) {
 		if !parPresent(h) {
 			c.Case(fmt.Sprintf("%s/LoadConsensusParams-absent/%d", key, h), false)
 			if pv != nil {
-				c.Violation("params-absent-panic", w("height", h), "LoadConsensusParams(%d) (no record) panicked: %v", h, pv)
+				viol(c, "params-absent-panic", w("height", h), "LoadConsensusParams(%d) (no record) panicked: %v", h, pv)
 			} else if _, ok := err.(sm.NoConsensusParamsForHeightError); !ok {
-				c.Violation("params-absent-loads", w("height", h), "LoadConsensusParams(%d): no record saved, got err=%v", h, err)
+				viol(c, "params-absent-loads", w("height", h), "LoadConsensusParams(%d): no record saved, got err=%v", h, err)
 			}
 			c.Count("ss_absent_height_errors", 1)
 			continue
@@ -221,11 +221,11 @@ func stateChain(c *vf.Ctx, i int, r *rand.Rand) {
 		}
 		switch {
 		case pv != nil:
-			c.Violation("params-load-panic", ww(), "LoadConsensusParams(%d) panicked: %v", h, pv)
+			viol(c, "params-load-panic", ww(), "LoadConsensusParams(%d) panicked: %v", h, pv)
 		case err != nil:
-			c.Violation("params-load-error", ww(), "LoadConsensusParams(%d): %v", h, err)
+			viol(c, "params-load-error", ww(), "LoadConsensusParams(%d): %v", h, err)
 		case !bytes.Equal(amino.MustMarshal(ps), amino.MustMarshal(want)):
-			c.Violation("params-mismatch", ww(), "LoadConsensusParams(%d) differs from the params in effect at that height (last change %d)", h, lc)
+			viol(c, "params-mismatch", ww(), "LoadConsensusParams(%d) differs from the params in effect at that height (last change %d)", h, lc)
 		}
 	}
 	if i < 3 {
